@@ -1,27 +1,9 @@
-(** C06 — the goBadgerDBIt wrapper: refuted at full strength (the end bound
-    is enforced only by checkKey's [<=], Seek is not clamped to the range),
-    proved under the two boolean guards. *)
+(** C06 — the goBadgerDBIt wrapper (end bound exclusive, Seek clamped into
+    the range) refines the same abstract iterator as the LevelDB/memdb one. *)
 From Coq Require Import String.
 From Coq Require Import List NArith Bool Lia.
 From C33 Require Import Lib.Harness Lib.Bytes Lib.OMap C06.Model C06.Spec C06.ProofsIter.
 Import ListNotations.
-
-(** guard 1: no stored key equals the (resolved, exclusive) end bound *)
-Definition end_not_stored (m : store) (start : key) (end_ : option key) : bool :=
-  match spec_end start end_ with
-  | Some e => negb (mem e m)
-  | None => true
-  end.
-
-(** guard 2: every Seek target is non-empty and inside [start, end) *)
-Definition seek_ok (start : key) (e' : option key) (o : iop) : bool :=
-  match o with
-  | ISeek k => nonempty k && in_range (Some start) e' k
-  | _ => true
-  end.
-
-Definition seeks_in_range (start : key) (end_ : option key) (iops : list iop) : bool :=
-  forallb (seek_ok start (spec_end start end_)) iops.
 
 (** iteration order on keys *)
 Definition ord (rv : bool) (a b : key) : bool := if rv then bltb b a else bltb a b.
@@ -119,15 +101,74 @@ Proof. destruct o; eauto. Qed.
 Lemma bool_cases (b : bool) : b = true \/ b = false.
 Proof. destruct b; auto. Qed.
 
+
+(** * more list / order facts *)
+Lemma drop_until_ext {A} (f g : A -> bool) l :
+  (forall x, In x l -> f x = g x) -> drop_until f l = drop_until g l.
+Proof.
+  induction l as [|x l IH]; simpl; auto. intro H.
+  rewrite <- (H x) by auto. destruct (f x); [reflexivity|]. apply IH. intros y Hy. apply H. auto.
+Qed.
+
+Lemma bltb_nil_r k : bltb k [] = false.
+Proof. destruct k; reflexivity. Qed.
+
+Lemma bleb_cons_nil a r : bleb (a :: r) [] = false.
+Proof. reflexivity. Qed.
+
+Lemma bltb_beqb_false a b : bltb a b = true -> beqb a b = false.
+Proof. unfold bltb, beqb. destruct (bcmp a b); auto; discriminate. Qed.
+
+(** nothing but the empty string is below "\x00" *)
+Lemma bltb_zero y : bltb y [0%N] = true -> y = [].
+Proof.
+  destruct y as [|a r]; auto. unfold bltb. destruct a as [|p]; simpl.
+  - destruct r; discriminate.
+  - discriminate.
+Qed.
+
+(** the library Seek(k): forward for every k, reverse for a non-empty k *)
+Lemma b_seek_drop rv (l : list entry) k : rv = false \/ nonempty k = true ->
+  b_seek rv l k = drop_until (seek_pred rv k) l.
+Proof.
+  intro H. destruct k as [|a k]; [|reflexivity].
+  destruct H as [->|H]; [|discriminate]. simpl.
+  destruct l as [|x l]; auto. simpl. rewrite bleb_nil_l. reflexivity.
+Qed.
+
+Lemma skip_end_incl e (c : list entry) : incl (skip_end e c) c.
+Proof.
+  destruct c as [|x tl]; simpl; [apply incl_refl|].
+  destruct (at_end e (fst x)); [apply incl_tl|]; apply incl_refl.
+Qed.
+
+Lemma skip_end_none (c : list entry) : skip_end None c = c.
+Proof. destruct c; reflexivity. Qed.
+
+(** going down: "first entry <= e, stepping over e itself" = "first entry < e" *)
+Lemma skip_le_lt e (l : list entry) : ds true l ->
+  skip_end (Some e) (drop_until (fun x => bleb (fst x) e) l) = drop_until (fun x => bltb (fst x) e) l.
+Proof.
+  induction l as [|x l IH]; [reflexivity|]. intro H. simpl in H. destruct H as [F D].
+  cbn [drop_until]. rewrite bleb_lt_or_eq.
+  destruct (bltb _ e) eqn:L; cbn [orb].
+  - cbn [skip_end at_end]. unfold key in *. rewrite (bltb_beqb_false _ _ L). reflexivity.
+  - destruct (beqb _ e) eqn:E.
+    + cbn [skip_end at_end]. unfold key in *. rewrite E. apply beqb_eq in E. symmetry. apply drop_until_id.
+      rewrite Forall_forall in *. intros y Hy. specialize (F y Hy). unfold ord in F.
+      rewrite <- E. exact F.
+    + apply IH. exact D.
+Qed.
+
+Definition keys_nonempty (m : store) : bool := forallb (fun e => nonempty (fst e)) m.
+
 Section Badger.
 Variables (m : store) (start : key) (end_ : option key) (rv : bool).
 Hypothesis Hm : sorted m.
-Hypothesis Hguard : end_not_stored m start end_ = true.
 
 Let e' := spec_end start end_.
 Let all := if rv then rev m else m.
 Let inr (x : entry) : bool := in_range (Some start) e' (fst x).
-Let ck (x : entry) : bool := check_key start e' (fst x).
 Let LSb := filter inr all.
 
 (** entry side / exit side of the range in iteration order *)
@@ -156,17 +197,12 @@ Proof.
   destruct rv; auto. rewrite filter_rev'. reflexivity.
 Qed.
 
-(** under guard 1, checkKey's [<= end] is the exclusive test on stored keys *)
-Lemma ck_inr x : In x m -> ck x = inr x.
+(** Valid(): "not on end" and checkKey's [<= end] together are the exclusive test *)
+Lemma valid_inr x :
+  negb (at_end e' (fst x)) && check_key start e' (fst x) = inr x.
 Proof.
-  intro Hx. unfold ck, inr, check_key, in_range. f_equal.
-  unfold end_not_stored in Hguard. fold e' in Hguard.
-  destruct e' as [e|]; auto.
-  rewrite bleb_lt_or_eq. destruct (beqb (fst x) e) eqn:E; [|apply orb_false_r].
-  apply beqb_eq in E. exfalso.
-  assert (M : mem e m = true).
-  { apply mem_In. rewrite <- E. apply in_map. exact Hx. }
-  rewrite M in Hguard. discriminate.
+  unfold inr, check_key, in_range, at_end. destruct e' as [e|]; [|reflexivity].
+  unfold beqb, bleb, bltb. destruct (bcmp start _); destruct (bcmp _ e); reflexivity.
 Qed.
 
 Lemma ext_mono x y : ext x = false -> ord rv (fst x) (fst y) = true -> ext y = false.
@@ -177,6 +213,13 @@ Proof.
   - destruct e' as [e|]; [|discriminate]. intros H1 H2.
     destruct (bltb (fst y) e) eqn:B; auto.
     rewrite (bltb_trans _ _ _ H2 B) in H1. discriminate.
+Qed.
+
+Lemma ent_mono x y : ent x = true -> ord rv (fst x) (fst y) = true -> ent y = true.
+Proof.
+  unfold ent, ord. destruct rv.
+  - destruct e' as [e|]; auto. intros H1 H2. eapply bltb_trans; eauto.
+  - intros H1 H2. apply bltb_bleb. eapply bleb_bltb_trans; eauto.
 Qed.
 
 (** in-range entries form a prefix of the list *)
@@ -209,7 +252,7 @@ Lemma obs_RB cur s : RB cur s ->
 Proof.
   intros [-> [P I]]. unfold bad_valid, bad_entry, mkb. simpl.
   destruct cur as [|x tl]; [reflexivity|]. simpl.
-  fold (ck x). rewrite (ck_inr x) by (apply all_in, I; left; reflexivity).
+  rewrite (valid_inr x).
   destruct (inr x) eqn:E; [reflexivity|].
   destruct P as [P _]. rewrite (filter_none inr tl (P E)). reflexivity.
 Qed.
@@ -222,142 +265,253 @@ Proof.
   - eapply incl_tran; [|exact I]. apply incl_tl, incl_refl.
 Qed.
 
-(** Seek(k) of the library iterator for a non-empty k *)
-Lemma b_seek_nonempty k : nonempty k = true -> b_seek rv all k = drop_until (seek_pred rv k) all.
-Proof. destruct k; [discriminate|reflexivity]. Qed.
-
-Lemma seek_RB k : nonempty k = true -> in_range (Some start) e' k = true ->
-  RB (b_seek rv all k) (drop_until (seek_pred rv k) LSb).
+(** nothing is in range: every sublist of [all] stands for the empty list *)
+Lemma RB_none cur : incl cur all -> (forall x, In x all -> inr x = false) -> RB cur LSb.
 Proof.
-  intros NE IR. rewrite (b_seek_nonempty k NE). unfold RB, LSb.
-  split; [|split].
-  - symmetry. apply (filter_drop_until_comm rv); [apply seek_pred_mono | apply ds_all].
+  intros I N. unfold RB, LSb. split; [|split; auto].
+  - rewrite (filter_none inr all) by (apply Forall_forall; auto).
+    symmetry. apply filter_none. apply Forall_forall. auto.
+  - apply pfx_none. apply Forall_forall. auto.
+Qed.
+
+(** the first entry on the entry side of the range, and all that follow *)
+Lemma ent_RB : RB (drop_until ent all) LSb.
+Proof.
+  unfold RB, LSb. split; [|split].
+  - symmetry. apply filter_drop_until_same. intros x _ G. rewrite inr_ent_ext, G. reflexivity.
   - apply pfx_ent; [apply ds_drop_until, ds_all|].
-    pose proof (drop_until_Forall rv (seek_pred rv k) all (seek_pred_mono rv k) ds_all) as F.
-    rewrite Forall_forall in *. intros x Hx. specialize (F x Hx).
-    unfold in_range in IR. apply andb_true_iff in IR as [I1 I2].
-    unfold ent, seek_pred in *. destruct rv.
-    + destruct e' as [e|]; auto. eapply bleb_bltb_trans; eauto.
-    + eapply bleb_trans; eauto.
+    apply (drop_until_Forall rv); [exact ent_mono | exact ds_all].
   - apply drop_until_incl.
 Qed.
 
-(** Rewind / the constructor: Seek(start) forward, Seek(end) reverse *)
-Lemma rewind_RB : RB (b_seek rv all (bad_home rv start e')) LSb.
+(** library Seek(k) when everything at or after k (in iteration order) is on
+    the entry side of the range *)
+Lemma seek_RB_gen k : (forall x, seek_pred rv k x = true -> ent x = true) ->
+  RB (drop_until (seek_pred rv k) all) (drop_until (seek_pred rv k) LSb).
 Proof.
-  unfold RB, LSb. destruct (bad_home rv start e') as [|h0 h] eqn:Hh.
-  - (* empty home: the library rewinds *)
-    simpl. split; [reflexivity|]. split; [|apply incl_refl].
-    unfold bad_home in Hh.
-    destruct (bool_cases rv) as [Er|Er]; rewrite Er in Hh.
-    + destruct (opt_cases e') as [Ee|[e Ee]]; rewrite Ee in Hh.
-      2: { subst e. apply pfx_none. apply Forall_forall. intros y _.
-           unfold inr, in_range. rewrite Ee. destruct (fst y); simpl; apply andb_false_r. }
-      apply pfx_ent; [apply ds_all|]. apply Forall_forall. intros y _.
-      unfold ent. rewrite Er, Ee. reflexivity.
-    + apply pfx_ent; [apply ds_all|]. apply Forall_forall. intros y _.
-      unfold ent. rewrite Er, Hh. apply bleb_nil_l.
-  - rewrite <- Hh. rewrite b_seek_nonempty by (rewrite Hh; reflexivity).
-    assert (Hent : forall x, In x all -> seek_pred rv (bad_home rv start e') x = ent x).
-    { intros x Hx. unfold seek_pred, ent, bad_home. unfold bad_home in Hh.
-      destruct (bool_cases rv) as [Er|Er]; rewrite Er; [|reflexivity]. rewrite Er in Hh.
-      destruct (opt_cases e') as [Ee|[e Ee]]; rewrite Ee in Hh; [discriminate|]. rewrite Ee.
-      pose proof (ck_inr x (all_in x Hx)) as C. unfold ck, inr, check_key, in_range in C.
-      fold e' in C. rewrite Ee in C.
-      destruct (bleb start (fst x)) eqn:B; simpl in C; auto.
-      (* below start: compare directly *)
-      rewrite bleb_lt_or_eq. destruct (beqb (fst x) e) eqn:E; [|apply orb_false_r].
-      apply beqb_eq in E. exfalso.
-      unfold end_not_stored in Hguard. fold e' in Hguard. rewrite Ee in Hguard.
-      assert (M : mem e m = true).
-      { apply mem_In. rewrite <- E. apply in_map. apply all_in. exact Hx. }
-      rewrite M in Hguard. discriminate. }
-    split; [|split].
-    + symmetry. apply filter_drop_until_same. intros x Hx G. rewrite (Hent x Hx) in G.
-      rewrite inr_ent_ext, G. reflexivity.
-    + apply pfx_ent; [apply ds_drop_until, ds_all|].
-      pose proof (drop_until_Forall rv _ all (seek_pred_mono rv (bad_home rv start e')) ds_all) as F.
-      rewrite Forall_forall in *. intros x Hx. rewrite <- (Hent x); auto.
-      apply (drop_until_incl _ _ x Hx).
-    + apply drop_until_incl.
+  intro HE. unfold RB, LSb. split; [|split].
+  - symmetry. apply (filter_drop_until_comm rv); [apply seek_pred_mono | apply ds_all].
+  - apply pfx_ent; [apply ds_drop_until, ds_all|].
+    pose proof (drop_until_Forall rv (seek_pred rv k) all (seek_pred_mono rv k) ds_all) as F.
+    rewrite Forall_forall in *. intros x Hx. apply HE. apply F. exact Hx.
+  - apply drop_until_incl.
 Qed.
 
-Lemma bad_open_eq : bad_open m start end_ rv = mkb (b_seek rv all (bad_home rv start e')).
+Lemma LSb_ent x : In x LSb -> ent x = true.
+Proof.
+  unfold LSb. intro H. apply filter_In in H as [_ H]. rewrite inr_ent_ext in H.
+  apply andb_true_iff in H. tauto.
+Qed.
+
+Lemma LSb_all x : In x LSb -> In x all.
+Proof. unfold LSb. intro H. apply filter_In in H. tauto. Qed.
+
+(** ** Rewind *)
+Lemma rewind_fwd_RB : rv = false -> RB (b_seek false all start) LSb.
+Proof.
+  intro Er. rewrite b_seek_drop by auto.
+  rewrite (drop_until_ext (seek_pred false start) ent).
+  - exact ent_RB.
+  - intros x _. unfold seek_pred, ent. rewrite Er. reflexivity.
+Qed.
+
+Lemma rewind_rev_RB : rv = true -> RB (bad_rewind_rev all e') LSb.
+Proof.
+  intro Er. unfold bad_rewind_rev.
+  destruct (opt_cases e') as [Ee|[e Ee]]; rewrite Ee.
+  - (* no upper bound: the library rewinds *)
+    rewrite skip_end_none. simpl.
+    replace all with (drop_until ent all) at 1; [exact ent_RB|].
+    apply drop_until_id. apply Forall_forall. intros x _. unfold ent. rewrite Er, Ee. reflexivity.
+  - destruct e as [|a e0].
+    + (* empty non-nil end: nothing is in range *)
+      apply RB_none; [eapply incl_tran; [apply skip_end_incl|]; simpl; apply incl_refl|].
+      intros x _. unfold inr, in_range. rewrite Ee, bltb_nil_r. apply andb_false_r.
+    + rewrite b_seek_drop by (right; reflexivity).
+      pose proof ds_all as D. rewrite Er in D.
+      assert (EQ : skip_end (@Some key (a :: e0)) (drop_until (seek_pred true (a :: e0)) all) =
+                   drop_until ent all).
+      { transitivity (drop_until (fun x : entry => bltb (fst x) (a :: e0)) all).
+        - exact (skip_le_lt (a :: e0) all D).
+        - apply drop_until_ext. intros x _. unfold ent. rewrite Er, Ee. reflexivity. }
+      rewrite EQ. exact ent_RB.
+Qed.
+
+Lemma rewind_RB : RB (bad_rewind_cur rv all start e') LSb.
+Proof.
+  unfold bad_rewind_cur. destruct (bool_cases rv) as [Er|Er]; rewrite Er.
+  - apply rewind_rev_RB; exact Er.
+  - apply rewind_fwd_RB; exact Er.
+Qed.
+
+(** ** Seek *)
+Lemma seek_fwd_RB k : rv = false ->
+  RB (bad_seek_fwd all start k) (drop_until (seek_pred false k) LSb).
+Proof.
+  intro Er. unfold bad_seek_fwd. rewrite b_seek_drop by auto.
+  set (k' := if bltb k start then start else k).
+  assert (Hk' : bleb start k' = true).
+  { unfold k'. destruct (bltb k start) eqn:B; [apply bleb_refl|].
+    rewrite bleb_nbltb, B. reflexivity. }
+  assert (G : RB (drop_until (seek_pred rv k') all) (drop_until (seek_pred rv k') LSb)).
+  { apply seek_RB_gen. intros x Hx. unfold seek_pred, ent in *. rewrite Er in *.
+    eapply bleb_trans; eauto. }
+  rewrite Er in G.
+  replace (drop_until (seek_pred false k) LSb) with (drop_until (seek_pred false k') LSb); [exact G|].
+  unfold k'. destruct (bltb k start) eqn:B; [|reflexivity].
+  (* target below start: both targets keep every in-range entry *)
+  assert (HS : forall x, In x LSb -> bleb start (fst x) = true).
+  { intros x Hx. pose proof (LSb_ent x Hx) as E. unfold ent in E. rewrite Er in E. exact E. }
+  rewrite (drop_until_id (seek_pred false start) LSb).
+  - symmetry. apply drop_until_id. apply Forall_forall. intros x Hx. unfold seek_pred.
+    apply bltb_bleb. eapply bltb_bleb_trans; [exact B | apply HS; exact Hx].
+  - apply Forall_forall. intros x Hx. unfold seek_pred. apply HS. exact Hx.
+Qed.
+
+Section Rev.
+Hypothesis Hne : keys_nonempty m = true.
+
+Lemma all_nonempty x : In x all -> nonempty (fst x) = true.
+Proof.
+  intro H. apply all_in in H. unfold keys_nonempty in Hne.
+  rewrite forallb_forall in Hne. apply Hne. exact H.
+Qed.
+
+Lemma seek_rev_RB k : rv = true ->
+  RB (bad_seek_rev all e' k) (drop_until (seek_pred true k) LSb).
+Proof.
+  intro Er. unfold bad_seek_rev.
+  destruct (match e' with Some e => bleb e k | None => false end) eqn:C.
+  - (* target at or above the end bound: Rewind *)
+    destruct (opt_cases e') as [Ee|[e Ee]]; rewrite Ee in C; [discriminate|].
+    rewrite (drop_until_id (seek_pred true k) LSb); [apply rewind_rev_RB; exact Er|].
+    apply Forall_forall. intros x Hx. pose proof (LSb_ent x Hx) as E.
+    unfold ent in E. rewrite Er, Ee in E. unfold seek_pred.
+    apply bltb_bleb. eapply bltb_bleb_trans; eauto.
+  - destruct k as [|a k0].
+    + (* empty target: nothing is at or below it *)
+      assert (T : tl (b_seek true all [0%N]) = []).
+      { rewrite b_seek_drop by (right; reflexivity).
+        pose proof ds_all as D. rewrite Er in D.
+        pose proof (ds_drop_until true (seek_pred true [0%N]) all D) as D2.
+        pose proof (drop_until_Forall true (seek_pred true [0%N]) all (seek_pred_mono true [0%N]) D) as F.
+        pose proof (drop_until_incl (seek_pred true [0%N]) all) as I.
+        destruct (drop_until (seek_pred true [0%N]) all) as [|x t]; [reflexivity|].
+        destruct t as [|y t]; [reflexivity|]. exfalso.
+        simpl in D2. destruct D2 as [D2 _]. pose proof (Forall_inv D2) as Oy.
+        pose proof (Forall_inv F) as Px. cbv beta in Oy, Px.
+        unfold ord in Oy. unfold seek_pred in Px.
+        pose proof (bltb_zero _ (bltb_bleb_trans _ _ _ Oy Px)) as Z.
+        assert (Iy : In y all) by (apply I; right; left; reflexivity).
+        apply all_nonempty in Iy. rewrite Z in Iy. discriminate. }
+      rewrite T.
+      rewrite (drop_until_all_false (seek_pred true []) LSb).
+      * unfold RB. split; [reflexivity|]. split; [exact I|]. intros x [].
+      * intros x Hx. apply LSb_all, all_nonempty in Hx. unfold seek_pred.
+        destruct (fst x); [discriminate|reflexivity].
+    + rewrite b_seek_drop by (right; reflexivity).
+      assert (G : RB (drop_until (seek_pred rv (a :: k0)) all) (drop_until (seek_pred rv (a :: k0)) LSb)).
+      { apply seek_RB_gen. intros x Hx. unfold seek_pred, ent in *. rewrite Er in *.
+        destruct (opt_cases e') as [Ee|[e Ee]]; rewrite Ee in *; [reflexivity|].
+        eapply bleb_bltb_trans; [exact Hx|]. rewrite bltb_nbleb, C. reflexivity. }
+      rewrite Er in G. exact G.
+Qed.
+
+Lemma seek_RB_all k : RB (bad_seek_cur rv all start e' k) (drop_until (seek_pred rv k) LSb).
+Proof.
+  unfold bad_seek_cur. destruct (bool_cases rv) as [Er|Er]; rewrite Er.
+  - apply seek_rev_RB; exact Er.
+  - apply seek_fwd_RB; exact Er.
+Qed.
+End Rev.
+
+Lemma bad_open_eq : bad_open m start end_ rv = mkb (bad_rewind_cur rv all start e').
 Proof. unfold bad_open, mkb. rewrite resolve_end_spec. reflexivity. Qed.
+
+(** ** one wrapper call *)
+Lemma step_rewind cur :
+  it_step (ItB (mkb cur)) IRewind = (ItB (mkb (bad_rewind_cur rv all start e')), spec_obs LSb).
+Proof.
+  simpl. unfold bad_rewind, bad_set_cur. simpl. fold (mkb (bad_rewind_cur rv all start e')).
+  rewrite (obs_RB _ _ rewind_RB). reflexivity.
+Qed.
+
+Lemma step_next cur s : RB cur s ->
+  it_step (ItB (mkb cur)) INext = (ItB (mkb (tl cur)), spec_obs (tl s)).
+Proof.
+  intro HR. simpl. unfold bad_next, bad_set_cur. simpl. fold (mkb (tl cur)).
+  rewrite (obs_RB _ _ (next_RB _ _ HR)). reflexivity.
+Qed.
+
+Lemma step_seek cur k : keys_nonempty m = true ->
+  it_step (ItB (mkb cur)) (ISeek k) =
+    (ItB (mkb (bad_seek_cur rv all start e' k)), spec_obs (drop_until (seek_pred rv k) LSb)).
+Proof.
+  intro Hne. simpl. unfold bad_seek, bad_set_cur. simpl. fold (mkb (bad_seek_cur rv all start e' k)).
+  rewrite (obs_RB _ _ (seek_RB_all Hne k)). reflexivity.
+Qed.
 
 Definition ok_posb (cur : list entry) (p : spec_pos) : Prop :=
   match p with Some s => RB cur s | None => True end.
 
-Lemma step_simb cur p o :
-  ok_posb cur p -> (o = INext -> p <> None) -> seek_ok start e' o = true ->
+Lemma step_simb cur p o : keys_nonempty m = true ->
+  ok_posb cur p -> (o = INext -> p <> None) ->
   exists cur' s',
     it_step (ItB (mkb cur)) o = (ItB (mkb cur'), spec_obs s') /\
     spec_step rv LSb p o = Some s' /\ RB cur' s'.
 Proof.
-  intros Hp Hn Hs. destruct o as [|k|].
-  - exists (b_seek rv all (bad_home rv start e')), LSb.
-    pose proof rewind_RB as HR. split; [|split; auto].
-    simpl. unfold bad_rewind, bad_set_cur. simpl. fold (mkb (b_seek rv all (bad_home rv start e'))).
-    rewrite (obs_RB _ _ HR). reflexivity.
-  - simpl in Hs. apply andb_true_iff in Hs as [NE IR].
-    exists (b_seek rv all k), (drop_until (seek_pred rv k) LSb).
-    pose proof (seek_RB k NE IR) as HR. split; [|split; auto].
-    simpl. unfold bad_seek, bad_set_cur. simpl. fold (mkb (b_seek rv all k)).
-    rewrite (obs_RB _ _ HR). reflexivity.
+  intros Hne Hp Hn. destruct o as [|k|].
+  - exists (bad_rewind_cur rv all start e'), LSb.
+    split; [apply step_rewind|]. split; [reflexivity | exact rewind_RB].
+  - exists (bad_seek_cur rv all start e' k), (drop_until (seek_pred rv k) LSb).
+    split; [apply step_seek; exact Hne|]. split; [reflexivity | apply seek_RB_all; exact Hne].
   - destruct p as [s|]; [|exfalso; apply Hn; auto]. simpl in Hp.
-    exists (tl cur), (tl s). pose proof (next_RB _ _ Hp) as HR. split; [|split; auto].
-    simpl. unfold bad_next, bad_set_cur. simpl. fold (mkb (tl cur)).
-    rewrite (obs_RB _ _ HR). reflexivity.
+    exists (tl cur), (tl s).
+    split; [apply step_next; exact Hp|]. split; [reflexivity | apply next_RB; exact Hp].
 Qed.
 
-Lemma run_simb : forall iops cur s, RB cur s -> forallb (seek_ok start e') iops = true ->
+Lemma run_simb (Hne : keys_nonempty m = true) : forall iops cur s, RB cur s ->
   map Some (it_run (ItB (mkb cur)) iops) = spec_run rv LSb (Some s) iops.
 Proof.
-  induction iops as [|o iops IH]; intros cur s HR Hs; [reflexivity|].
-  simpl in Hs. apply andb_true_iff in Hs as [Hs1 Hs2].
-  destruct (step_simb cur (Some s) o HR) as [c' [s' [E1 [E2 HR']]]]; [discriminate|exact Hs1|].
+  induction iops as [|o iops IH]; intros cur s HR; [reflexivity|].
+  destruct (step_simb cur (Some s) o Hne HR) as [c' [s' [E1 [E2 HR']]]]; [discriminate|].
   cbn [it_run]. rewrite E1. cbn [map spec_run]. rewrite E2. cbn [option_map].
   f_equal. apply IH; auto.
 Qed.
 
-Lemma run_simb_positioned iops cur : positioned iops = true ->
-  forallb (seek_ok start e') iops = true ->
+Lemma run_simb_positioned (Hne : keys_nonempty m = true) iops cur : positioned iops = true ->
   map Some (it_run (ItB (mkb cur)) iops) = spec_run rv LSb None iops.
 Proof.
-  destruct iops as [|o iops]; [reflexivity|]. intros P Hs.
-  simpl in Hs. apply andb_true_iff in Hs as [Hs1 Hs2].
-  destruct (step_simb cur None o I) as [c' [s' [E1 [E2 HR']]]]; [intros ->; discriminate|exact Hs1|].
+  destruct iops as [|o iops]; [reflexivity|]. intros P.
+  destruct (step_simb cur None o Hne I) as [c' [s' [E1 [E2 HR']]]]; [intros ->; discriminate|].
   cbn [it_run]. rewrite E1. cbn [map spec_run]. rewrite E2. cbn [option_map].
   f_equal. apply run_simb; auto.
 Qed.
 
+(** Rewind; Next while valid (no Seek: no condition on the keys) *)
 Lemma collect_simb : forall fuel cur s, RB cur s -> (length s < fuel)%nat ->
   it_collect_from fuel (ItB (mkb cur)) (spec_obs s) = s.
 Proof.
   induction fuel as [|f IH]; intros cur s HR Hf; [lia|].
   destruct s as [|x s']; [reflexivity|].
   cbn [it_collect_from spec_obs].
-  destruct (step_simb cur (Some (x :: s')) INext HR) as [c' [s2 [E1 [E2 HR']]]];
-    [discriminate|reflexivity|].
-  rewrite E1. simpl in E2. inversion E2; subst s2.
-  rewrite IH; [destruct x; reflexivity | exact HR' | simpl in Hf; lia].
+  rewrite (step_next cur (x :: s') HR).
+  rewrite IH; [destruct x; reflexivity | apply (next_RB _ _ HR) | simpl in Hf; simpl; lia].
 Qed.
 
-Lemma badger_refines_sec iops : positioned iops = true -> seeks_in_range start end_ iops = true ->
+Lemma badger_refines_sec iops : keys_nonempty m = true -> positioned iops = true ->
   map Some (it_run (it_open BBadger m start end_ rv) iops) =
   spec_run rv (spec_list m start end_ rv) None iops.
 Proof.
-  intros P Hs. simpl it_open. rewrite bad_open_eq, LSb_spec.
+  intros Hne P. simpl it_open. rewrite bad_open_eq, LSb_spec.
   apply run_simb_positioned; auto.
 Qed.
 
 Lemma badger_collect_sec : it_collect BBadger m start end_ rv = spec_list m start end_ rv.
 Proof.
   unfold it_collect. simpl it_open. rewrite bad_open_eq, LSb_spec.
-  destruct (step_simb (b_seek rv all (bad_home rv start e')) None IRewind I) as [c' [s' [E1 [E2 HR]]]];
-    [discriminate|reflexivity|].
-  rewrite E1. simpl in E2. inversion E2; subst s'.
-  apply collect_simb; [exact HR|].
+  rewrite step_rewind.
+  apply collect_simb; [exact rewind_RB|].
   assert (length LSb <= length all)%nat by apply filter_length_le'.
   pose proof all_length.
   lia.
@@ -365,61 +519,64 @@ Qed.
 
 End Badger.
 
-Theorem badger_iter_refines_partial (m : store) start end_ rv iops :
-  sorted m -> end_not_stored m start end_ = true ->
-  positioned iops = true -> seeks_in_range start end_ iops = true ->
+(** * the Badger wrapper refines the abstract iterator.  [keys_nonempty]: a
+    Badger store holds no empty key (Txn.Set rejects it); only a reverse
+    Seek with an empty target needs it. *)
+Theorem badger_iter_refines (m : store) start end_ rv iops :
+  sorted m -> keys_nonempty m = true -> positioned iops = true ->
   map Some (it_run (it_open BBadger m start end_ rv) iops) =
   spec_run rv (spec_list m start end_ rv) None iops.
 Proof. intros. apply badger_refines_sec; auto. Qed.
 
-Theorem badger_iter_collect_partial (m : store) start end_ rv :
-  sorted m -> end_not_stored m start end_ = true ->
+Theorem badger_iter_collect (m : store) start end_ rv :
+  sorted m ->
   it_collect BBadger m start end_ rv = spec_list m start end_ rv.
 Proof. intros. apply badger_collect_sec; auto. Qed.
 
-(** * refutations (witnesses reproduced on the real backend by the harness) *)
+Theorem badger_seek_spec (m : store) start end_ rv k pre_ops :
+  sorted m -> keys_nonempty m = true -> positioned (pre_ops ++ [ISeek k]) = true ->
+  List.last (it_run (it_open BBadger m start end_ rv) (pre_ops ++ [ISeek k])) (false, false, [], []) =
+  match (if rv then seek_le k (spec_range m start end_) else seek_ge k (spec_range m start end_)) with
+  | Some e => (true, true, fst e, snd e)
+  | None => (false, false, [], [])
+  end.
+Proof. intros S N P. apply seek_spec_of_refines. apply badger_iter_refines; auto. Qed.
+
+(** * examples: the inputs of the two repaired findings, and non-vacuity *)
 Definition wit_store : store :=
   [(bs "a", bs "va"); (bs "a1", bs "va1"); (bs "a2", bs "va2"); (bs "b", bs "vb"); (bs "c", bs "vc")]%string.
-
-Definition iter_collect_full (b : backend) : Prop :=
-  forall (m : store) start end_ rv, sorted m ->
-    it_collect b m start end_ rv = spec_list m start end_ rv.
-
-Definition iter_refines_full (b : backend) : Prop :=
-  forall (m : store) start end_ rv iops, sorted m -> positioned iops = true ->
-    map Some (it_run (it_open b m start end_ rv) iops) =
-    spec_run rv (spec_list m start end_ rv) None iops.
 
 Lemma wit_sorted : sorted wit_store.
 Proof. apply sortedb_iff. vm_compute. reflexivity. Qed.
 
-Theorem badger_iter_collect_refuted : ~ iter_collect_full BBadger.
-Proof.
-  intro H. specialize (H wit_store (bs "a"%string) None false wit_sorted).
-  vm_compute in H. discriminate.
-Qed.
-
-(** the same for an explicit range and the reverse direction *)
-Theorem badger_iter_collect_refuted_range_rev :
-  it_collect BBadger wit_store (bs "a"%string) (Some (bs "b"%string)) true <>
-  spec_list wit_store (bs "a"%string) (Some (bs "b"%string)) true.
-Proof. vm_compute. discriminate. Qed.
-
-(** Seek below the range is not clamped (no stored key equals the end bound here) *)
-Theorem badger_seek_refuted : ~ iter_refines_full BBadger.
-Proof.
-  intro H.
-  specialize (H wit_store (bs "a1"%string) (Some (bs "bz"%string)) false [ISeek (bs "a"%string)] wit_sorted eq_refl).
-  vm_compute in H. discriminate.
-Qed.
-
-(** the guards are satisfiable by non-trivial states *)
-Example guard_example :
-  end_not_stored wit_store (bs "a"%string) (Some (bs "az"%string)) = true /\
-  seeks_in_range (bs "a"%string) (Some (bs "az"%string)) [IRewind; INext; ISeek (bs "a1"%string); INext] = true /\
-  it_collect BBadger wit_store (bs "a"%string) (Some (bs "az"%string)) true =
+(** a stored key equal to the exclusive end bound is not visited (prefix and
+    explicit range, both directions) *)
+Example badger_end_exclusive_example :
+  it_collect BBadger wit_store (bs "a"%string) None false =
+    [(bs "a", bs "va"); (bs "a1", bs "va1"); (bs "a2", bs "va2")]%string /\
+  it_collect BBadger wit_store (bs "a"%string) (Some (bs "b"%string)) true =
     [(bs "a2", bs "va2"); (bs "a1", bs "va1"); (bs "a", bs "va")]%string.
-Proof. vm_compute. repeat split. Qed.
+Proof. vm_compute. split; reflexivity. Qed.
+
+(** Seek targets outside the range and the empty target are clamped *)
+Example badger_seek_clamped_example :
+  sorted wit_store /\ keys_nonempty wit_store = true /\
+  it_run (it_open BBadger wit_store (bs "a1"%string) (Some (bs "bz"%string)) false)
+         [ISeek (bs "a"%string); ISeek []; ISeek (bs "c"%string)] =
+    [(true, true, bs "a1", bs "va1"); (true, true, bs "a1", bs "va1"); (false, false, [], [])]%string /\
+  it_run (it_open BBadger wit_store (bs "a1"%string) (Some (bs "b"%string)) true)
+         [ISeek (bs "c"%string); ISeek (bs "b"%string); ISeek []; ISeek (bs "a"%string)] =
+    [(true, true, bs "a2", bs "va2"); (true, true, bs "a2", bs "va2"); (false, false, [], []);
+     (false, false, [], [])]%string.
+Proof. split; [exact wit_sorted|]. vm_compute. repeat split. Qed.
+
+(** [keys_nonempty] cannot be dropped from the statement about the model: with an
+    empty key in the list (a state no Badger store reaches) a reverse
+    Seek(empty) differs.  This is a limit of the domain, not a finding. *)
+Example badger_empty_key_outside_domain :
+  map Some (it_run (it_open BBadger [([], bs "v")]%string [] (Some empty_value) true) [ISeek []]) <>
+  spec_run true (spec_list [([], bs "v")]%string [] (Some empty_value) true) None [ISeek []].
+Proof. vm_compute. discriminate. Qed.
 
 (** hypotheses of the LevelDB/memdb theorems are satisfiable, non-trivially *)
 Example ldb_example :
